@@ -45,6 +45,13 @@ def gen_cases(tier, seed):
     fixed = ["9 to 5", "8 8 8", "am 5. um 8", "heute 8 uhr", "at the 5th", "von 8 bis 10", "monday morning", "in the evening", "early morning",
              "3 days", "5.3. 8:00", "tomorrow 9-5", "half past 8", "first", "12am", "late very late evening"]
     cases += [{"t": t, "ts": "2021-03-10T12:43:30"} for t in fixed]
+    # the same expression twice in one text (a rule that hands back a shared object shows only then)
+    singles = ["midnight", "mitternacht", "noon", "tomorrow", "monday", "5pm", "12.12.", "heute", "morgen", "eom", "now", "first", "evening", "8 uhr", "3rd",
+               "friday", "january", "2021", "half past 8", "one o'clock", "today", "jetzt", "nachts", "12am"]
+    for i, e in enumerate(singles):
+        for j, f in enumerate(("%s %s", "%s - %s", "%s bis %s", "sat %s - sun %s", "%s tomorrow %s")):
+            if tier == "thorough" or (i + j) % 3 == 0 or i < 2:
+                cases.append({"t": f % (e, e), "ts": "2020-03-04T10:00:00"})
     from . import streams as S
     cov = [e for e in S.cov_entries() if len(e["t"].split()) <= 5 and len(e["t"]) <= 36]
     cases += [{"t": e["t"], "ts": e["ts"]} for e in (cov if tier == "thorough" else r.sample(cov, min(len(cov), 30)))]
